@@ -24,7 +24,7 @@ Definition tls_client_requirements (cfg : cconfig) (ins : list input) (st' : cst
     mutualVersionMax false (c_maxv cfg) (sh_vers sh) = Some v /\ (v <? VersionTLS10) = false /\
     mutualCipherSuite cipherSuites (c_suites cfg) (sh_suite sh) = Some su /\
     (* (i)-(ii) the chain was verified for the requested name at the configured time: the leaf is in c_trusted *)
-    forallb is_cert certs = true /\ mem (cert_id c0) (c_trusted cfg) = true /\
+    forallb is_cert certs = true /\ tmem c0 (c_trusted cfg) = true /\
     (* (iii)/(iv) the key exchange *)
     ((su_kx su = KxRSA /\ cert_kind c0 = KIND_RSA /\
       (* RSA suites: no ServerKeyExchange; the pre-master secret went out encrypted to the CERTIFICATE's key *)
